@@ -638,3 +638,20 @@ def cases_dict(func_node: ast.AST, target: str, at: ast.stmt, norm, pm: Optional
             continue
         out[bool_key(g)] = u(v)
     return out
+
+
+def single_assignments(func_node: ast.AST, names_only: bool = False, text: bool = True) -> Dict[str, object]:
+    """{target text: value} for the plain assignments of the function; a target assigned more than once maps to
+    "<assigned more than once>" (text) / None (nodes), so that a rule comparing against one expected value cannot be
+    satisfied by whichever assignment happens to come last."""
+    out: Dict[str, object] = {}
+    many = set()
+    for n in walk_own(func_node):
+        if isinstance(n, ast.Assign) and len(n.targets) == 1 and (not names_only or isinstance(n.targets[0], ast.Name)):
+            k = u(n.targets[0])
+            if k in out:
+                many.add(k)
+            out[k] = u(n.value) if text else n.value
+    for k in many:
+        out[k] = "<assigned more than once>" if text else None
+    return out
